@@ -208,7 +208,15 @@ func (e *Engine) callFn(fr *Frame, st *State, fn *ssa.Function, args []Value, bo
 			}
 			con.UsedBy[e.curFn] = true
 		}
-		return e.applyContract(fr, st, con, fn.Signature, args, ins)
+		e.pendingFree = map[string]Value{}
+		for i, fv := range fn.FreeVars {
+			if i < len(bound) {
+				e.pendingFree[fv.Name()] = bound[i]
+			}
+		}
+		outs := e.applyContract(fr, st, con, fn.Signature, args, ins)
+		e.pendingFree = nil
+		return outs
 	}
 	canInline := len(fn.Blocks) > 0 && (inRepo(fn) || (fn.Pkg != nil && inlineStdPkgs[fn.Pkg.Pkg.Path()]) || fn.Synthetic != "")
 	if canInline {
@@ -588,6 +596,14 @@ func (e *Engine) checkPre(fr *Frame, st *State, con *Contract, fn *ssa.Function,
 func (e *Engine) applyContract(fr *Frame, st *State, con *Contract, sig *types.Signature, args []Value, ins ssa.Instruction) []Outcome {
 	ctx := e.ctxFor(st, nil, con, con.Key)
 	ctx.noVars = true
+	for name, v := range e.pendingFree {
+		// captured variables of a closure: by reference (pointer to the variable) or by value
+		if p, ok := v.(PtrV); ok && p.Obj != nil {
+			ctx.bind[name] = e.loadPtr(st, p)
+		} else {
+			ctx.bind[name] = v
+		}
+	}
 	e.bindParams(ctx, con, args)
 	e.checkPre(fr, st, con, nil, args, ins, ctx)
 	old := st.clone()
